@@ -47,7 +47,7 @@ def constants_spec(draw):
 
 
 @st.composite
-def model_spec(draw, models=MODELS, dims=(2, 2, 2, 3), simplex=False, max_fracs=3, nonmatching=False):
+def model_spec(draw, models=MODELS, dims=(2, 2, 2, 3), simplex=False, max_fracs=3, nonmatching=False, units=False):
     model = draw(st.sampled_from(list(models)))
     if nonmatching and model in ("mass_balance", "energy") and draw(st.integers(0, 2)) == 0:
         # unit square, up to two orthogonal fractures, fracture and mortar grids refined independently
@@ -70,9 +70,13 @@ def model_spec(draw, models=MODELS, dims=(2, 2, 2, 3), simplex=False, max_fracs=
         else:
             fracs = [f for f in fracs if f != 2]
     fluid, solid, compressible = draw(constants_spec())
-    return {"model": model, "dim": dim, "fracs": fracs, "cartesian": cartesian, "fluid": fluid, "solid": solid,
-            "compressible": compressible, "dt": draw(st.sampled_from([0.1, 1.0, 10.0])),
-            "amp": draw(st.sampled_from([0.01, 0.1, 0.5])), "pseed": draw(st.integers(0, 2**31 - 1))}
+    out = {"model": model, "dim": dim, "fracs": fracs, "cartesian": cartesian, "fluid": fluid, "solid": solid,
+           "compressible": compressible, "dt": draw(st.sampled_from([0.1, 1.0, 10.0])),
+           "amp": draw(st.sampled_from([0.01, 0.1, 0.5])), "pseed": draw(st.integers(0, 2**31 - 1))}
+    if units and draw(st.integers(0, 2)) == 0:
+        # simulation units: all lengths / masses are expressed in multiples of these (numbers change magnitude)
+        out["units"] = {"m": draw(st.sampled_from([1e-2, 1e2, 1e4])), "kg": draw(st.sampled_from([1.0, 1e-3, 1e3]))}
+    return out
 
 
 def model_class(name, dim, extra_mixins=(), geom="default"):
@@ -110,6 +114,8 @@ def build_model(spec, extra_mixins=(), extra_params=None):
         "folder_name": str(scratch_file("model_out")),
         "meshing_kwargs": {"file_name": scratch_file("model_mesh.msh")},
     }
+    if spec.get("units"):
+        params["units"] = pp.Units(**spec["units"])
     if spec.get("geom") == "nonmatching":
         params.update(grid_type="cartesian", meshing_arguments={"cell_size": spec["cell_size"]},
                       fracture_refinement_ratio=spec["frac_ratio"], interface_refinement_ratio=spec["intf_ratio"])
@@ -141,4 +147,6 @@ def model_labels(spec, m):
         labs.append("intersection")
     if spec.get("geom") == "nonmatching":
         labs.append("nonmatching")
+    if spec.get("units"):
+        labs.append("scaled-units")
     return labs
